@@ -16,7 +16,7 @@ class Prop:
     quick_runs = 30000
     thorough_runs = 1000000
     rule = ("seeded cold pipelines (depth 1-3, cold/sync sources, non-multicasting operators, deterministic callbacks, re-iterable argument "
-            "collections); ONE observable object is subscribed 2-4 times at seeded, sequential and overlapping virtual times; each "
+            "collections); ONE observable object is subscribed 2-4 times at seeded, sequential and overlapping virtual times (offsets also chosen so that notifications of two overlapping subscriptions fall on one instant); each "
             "subscription is compared (values, virtual times, terminal) with the first subscription of a FRESHLY BUILT identical pipeline "
             "subscribed at the same time in a twin world, and the per-source subscription counts must add up. Distinct = (operators, "
             "subscription times, first recorder's kinds); non-trivial = at least two subscriptions each observed a notification.")
@@ -27,11 +27,29 @@ class Prop:
     def generate(self, rng, tier):
         depth = rng.choice([1, 1, 2, 2, 3])
         sc = pipe.gen(rng, depth, allow, kinds=["cold", "cold", "cold", "sync"], max_sources=3)
+        # fallback operators only do something when their sources fail: most of their direct sources end in an error of their own
+        src = {s_["id"]: s_ for s_ in sc["sources"]}
+
+        def walk(node):
+            if isinstance(node, dict):
+                if node["op"] in ("rx.catch", "catch", "rx.catch_with_iterable", "rx.on_error_resume_next", "on_error_resume_next", "retry", "catch_handler"):
+                    for x in node["in"]:
+                        ev = src[x]["events"] if isinstance(x, str) else None
+                        if ev and ev[-1][1] in "CE" and rng.random() < 0.7:
+                            ev[-1] = [ev[-1][0], "E", {"err": "e-" + x}]
+                for x in node["in"]:
+                    walk(x)
+
+        walk(sc["program"])
         n = rng.choice([2, 2, 3, 4])
         t = sc["sub_t"]
         subs = [t]
+        # offsets that make notifications of two overlapping subscriptions coincide: event times of the (cold) sources and sums of two
+        ets = sorted(set(e[0] for s in sc["sources"] for e in s["events"] if e[0] > 0))
+        terms = sorted(set(e[0] for s in sc["sources"] for e in s["events"] if e[0] > 0 and e[1] in "CE"))
+        coincide = sorted(set(ets + [a + b for a in ets for b in ets]))[:40] + terms * 4  # mostly: when a source ends (its successor starts)
         for _ in range(n - 1):
-            t += rng.choice([0, 10, 50, 95, 400, 900])
+            t += rng.choice(coincide) if coincide and rng.random() < 0.5 else rng.choice([0, 10, 50, 95, 400, 900])
             subs.append(t)
         sc["subs"] = subs
         sc["horizon"] = subs[-1] + 2500
